@@ -72,7 +72,7 @@ positive scaling: evaluations and ceiling x u, covariance x u^2 => variances x u
                noise levels 1e-3 / 1e-5
   sequences / environment   see C06/call-sequence and C06/hashseed above
 
-Pending triage (fail on the unchanged tree; registrations behind `if False:  # pending triage: <class>` in `_sweeps`)
+Pending triage (fail on the unchanged tree; registrations behind `if False:  # pending triage: <class>` in `_sweeps`)   [TRIAGED since: every class repaired in /repo, recorded as open finding, or dropped -- DESIGN.md 10.10]
   near-identical-models(diff-variance<eps)       DROPPED after triage (expectation below the rounding error of the covariance contrast)
   tiny-units(variance<eps)                       evaluations in units of 1e-9 .. 1e-12: t-test p-values are not those of the reported
                                                  variances (clamp max(var, eps)), whereas get_sem / get_ci scale correctly
